@@ -112,3 +112,30 @@ func vs_tightensMax(a, b *int64) bool  { return b != nil && (a == nil || *b < *a
 func vs_tightensMin(a, b *int64) bool  { return b != nil && (a == nil || *b > *a) }
 func vs_tightensMaxF(a, b *float64) bool { return b != nil && (a == nil || *b < *a) }
 func vs_tightensMinF(a, b *float64) bool { return b != nil && (a == nil || *b > *a) }
+
+// vs_validSimple: what the Swagger 2.0 schema guarantees about a simple schema (parameter,
+// header or items object): an array-typed one carries items, recursively.
+func vs_validSimple(s *spec.SimpleSchema) bool {
+	if s.Type != "array" {
+		return true
+	}
+	return s.Items != nil && vs_validSimple(&s.Items.SimpleSchema)
+}
+
+// vs_nonNilItem: a schema-like value handed over as interface{} is not a nil pointer, and a
+// simple schema among them is valid in the sense above.
+func vs_nonNilItem(item interface{}) bool {
+	switch s := item.(type) {
+	case *spec.Schema:
+		return s != nil
+	case *spec.SchemaProps:
+		return s != nil
+	case *spec.SimpleSchema:
+		return s != nil && vs_validSimple(s)
+	case spec.SimpleSchema:
+		return vs_validSimple(&s)
+	case *spec.Refable:
+		return s != nil
+	}
+	return true
+}
